@@ -145,7 +145,7 @@ def reproduce(item):
 
 def main(tier):
     t0 = time.time()
-    its = common.pipe_items(tier, KQ, KT, k1=(tier != "quick"))
+    its = common.pipe_items(tier, KQ, KT, one_line=True, k1=(tier != "quick"))
     # plain all-phases check runs (no fix in front of them) of every fixture under the default and jcl configurations
     its += [dict(it, check_only=True, id=it["id"] + "#check") for it in universe.zero_dev(corpus.seed_ids(("fix", "cls")), styles=(None, "jcl"))]
     m = explore.run(its, execute, horizon=60.0, label=PROP)
